@@ -16,7 +16,7 @@ RULE = ('every XMAP file written by end-to-end runs (ordinary classes with -ms 3
         'coordinates = positions[label-1] of the maps given. Non-trivial = file with >= 1 record that has a reverse, '
         'second-pass, joined or one-pair record, or a header-only file; distinct by content hash of the record lines.')
 ASSUMPTIONS = ['records that violate C01 (label out of range) are skipped for the coordinate clause']
-MINIMUMS = {'files-with-1000+-records': 1, 'files-read': {'quick': 400, 'thorough': 6000}, 'records-compared': {'quick': 2500, 'thorough': 40000},
+MINIMUMS = {'files-with-1000+-records': 1, 'files-with-query-coordinates-beyond-2^24': {'quick': 2, 'thorough': 20}, 'files-read': {'quick': 400, 'thorough': 6000}, 'records-compared': {'quick': 2500, 'thorough': 40000},
             'header-only-files': {'quick': 100, 'thorough': 1500}, 'one-record-files': {'quick': 50, 'thorough': 800},
             'one-pair-records': {'quick': 2, 'thorough': 30}, 'second-pass-records': {'quick': 300, 'thorough': 5000}}
 
@@ -31,6 +31,8 @@ def make_case(rng, big=0):
     if big:
         return gen.big_file_case(rng, big)
     x = rng.random()
+    if x < 0.04:
+        return gen.huge_coordinate_case(rng)
     if x < 0.35:
         case = c07.make_case(rng)
         case.pop('decisions', None)
@@ -70,6 +72,10 @@ def judge(case, wd, sh):
             sh.count('one-record-files')
         if len(recs) > 1000:
             sh.count('files-with-1000+-records')
+        if any(max(r['qs'], r['qe'], r['ql']) >= 2 ** 24 for r in recs):
+            sh.count('files-with-query-coordinates-beyond-2^24')
+        elif any(max(r['qs'], r['qe'], r['ql']) >= 2 ** 21 for r in recs):
+            sh.count('files-with-query-coordinates-beyond-2^21')
         joined = suf == '' and case['mode'] in ('joined', 'all')
         if not recs or any(r['ori'] == '-' or r['rest'] == 'True' or len(r['aln']) == 1 for r in recs) or joined:
             sh.nt([suf, text.record_lines(txt)])
